@@ -53,6 +53,10 @@ class Sched {
   // policy: is this hook event a scheduling point for the calling thread?
   // (also the place to log non-yielding events)
   using Policy = std::function<bool(TCB&, ev, const void*, std::uint64_t)>;
+  // observer: sees every hook event of every thread (managed or not), before
+  // the policy; tcb is null for unmanaged threads
+  using Observer = std::function<void(TCB*, ev, const void*, std::uint64_t)>;
+  void set_observer(Observer o) { observer_ = std::move(o); }
 
   explicit Sched(Policy p) : policy_(std::move(p)) {
     inst_ = this;
@@ -149,7 +153,9 @@ class Sched {
   }
   static void hook_cb(ev e, const void* a, std::uint64_t v) noexcept {
     TCB* s = self_;
-    if (s == nullptr || inst_ == nullptr) return;
+    if (inst_ == nullptr) return;
+    if (inst_->observer_) inst_->observer_(s, e, a, v);
+    if (s == nullptr) return;
     if (!inst_->policy_(*s, e, a, v)) return;
     s->pend = Pending{pkind::HOOK, e, a, v, 0};
     s->spinning = (e == ev::SPIN);
@@ -157,6 +163,7 @@ class Sched {
   }
 
   Policy policy_;
+  Observer observer_;
   std::binary_semaphore ctl_{0};
   std::vector<std::unique_ptr<TCB>> ts_;
   long total_steps_ = 0;
